@@ -592,7 +592,7 @@ def run_c19(tier, budget: Budget, rnd) -> StreamResult:
                     res.notes.append(f"budget: stopped after {h} save() histories")
                     break
                 saves = []
-                for step in range(rnd.randint(2, 3)):
+                for step in range(3 if h % 2 == 0 else rnd.randint(2, 3)):
                     name = saves[0]["name"] if step == 2 and h % 2 == 0 else rnd.choice([n for n in FULL_NAMES if n not in {s_["name"] for s_ in saves}])
                     if h % 3 == 1 and step < 2:
                         # two different names that agree up to their last dot (runs of one sweep / time stamps of one second)
@@ -1221,6 +1221,17 @@ def build_history(d: Path, case: dict) -> None:
         if (d / TARGET).exists():
             (d / TARGET).rename(d / "real-results.json")
         os.symlink("real-results.json", d / TARGET)
+    if case.get("stale_tmp") == "brace":
+        # leftover of an earlier save that died mid-dump, cut right after a closing brace: newer and larger than the results file and
+        # ending in '}' — it LOOKS like a complete file and is truncated JSON
+        scr = d.parent / (d.name + "_scr")
+        shutil.copytree(d, scr, symlinks=True)
+        save_json(scr / TARGET, case["name"] + "-died", det_output(case["new"]))
+        full_new = (scr / TARGET).read_bytes()
+        shutil.rmtree(scr)
+        cut = full_new.rfind(b"}", 0, len(full_new.rstrip()) - 1)
+        (d / (TARGET + ".tmp")).write_bytes(full_new[:cut + 1])
+        return
     if case.get("stale_tmp"):
         # leftover of an earlier crashed save: either a short fragment, or (stale_tmp == "long") a partial dump that is
         # LONGER than anything this save will write — a save that does not truncate its temporary keeps its tail
@@ -1299,7 +1310,19 @@ def c20_case(res: StreamResult | None, script: Script | None, base: Path, case: 
     from incomplete_cooperative.run.save import save_json
     ref = base / f"{tag}_ref"
     shutil.copytree(hist, ref, symlinks=True)
-    save_json(ref / TARGET, case["name"], det_output(case["new"]))
+    try:
+        save_json(ref / TARGET, case["name"], det_output(case["new"]))
+    except Exception as e:      # noqa: BLE001
+        cur_ref = (ref / TARGET).read_bytes() if (ref / TARGET).exists() else None
+        try:
+            kept_ = cur_ref is not None and all(n_ in raw_json(cur_ref.decode()) for n_ in old_json)
+        except Exception:       # noqa: BLE001
+            kept_ = False
+        for p_ in (hist, ref):
+            shutil.rmtree(p_, ignore_errors=True)
+        return [(f"an ordinary, uninterrupted save_json raised {type(e).__name__}: {str(e)[:100]} (what an earlier interrupted save left "
+                 f"in the directory: stale_tmp = {case.get('stale_tmp')!r})"
+                 + ("" if kept_ else "; the results file no longer parses / earlier runs are lost"), None, "save_json:raises")], []
     ref_new = (ref / TARGET).read_bytes()
     # observation
     ops, new, crashed, err, _ = crash_run(hist, base / f"{tag}_w", case, None)
@@ -1449,7 +1472,7 @@ def run_c20(tier, budget: Budget, rnd) -> StreamResult:
             case = {"earlier": [{"rows": rnd.randint(1, 12), "cols": rnd.randint(1, 12), "seed": rnd.randint(0, 10 ** 6)} for _ in range(earlier)],
                     "new": {"rows": dims[0], "cols": dims[1], "seed": rnd.randint(0, 10 ** 6)},
                     "name": rnd.choice(["new-run", "ü", "run-0" if rnd.random() < 0.3 else "zz"]),
-                    "stale_tmp": (["long", True, False, False, False][i % 5] if i < 10 else rnd.choice(["long", True, False, False, False]))}
+                    "stale_tmp": (["long", True, "brace", False, False][i % 5] if i < 10 else rnd.choice(["long", True, "brace", False, False]))}
             # where the results directory lives: every fourth save on another file system than the temp directory (a save that
             # stages its new content in the temp directory can then not rename it into place)
             if i % 4 == 1:
